@@ -23,7 +23,7 @@ RULE = ('runs generated from the seed: a world of n FASTA files (n 0..8, thoroug
         'calc_file_signatures with drawn concurrency mode, worker count, completion-order policy and 0-2 faults; '
         'every fourth run (of each interpreter environment) is an exhaustive run: all n! completion orders x (no fault + an unreadable file at each '
         'position) for n<=5 (thorough n<=6). A case is (n, mode, workers, completion order, fault placement, outcome); '
-        'non-trivial = n>=2 and (completion order differs from submission order or a fault fired).')
+        'non-trivial = n>=2 and (completion order differs from submission order or a fault fired). Further drawn dimensions: thread-pool task bodies interleaved at line events, deferred done-callbacks, owner cancels queued tasks, relative paths, paths through a symlinked directory and .., named pipes, rare batches of 520-1040 files, python -O in every fourth run.')
 
 REAL = ['gambit.sigs.calc.calc_file_signatures', 'calc_file_signature', 'SequenceFile.parse', 'gambit.util.io.open_compressed',
         'Bio.SeqIO fasta parser', 'gzip', 'k-mer search (Cython)', 'accumulators', 'progress meters', 'pickle of task arguments/results']
